@@ -23,7 +23,7 @@ def DepOK (s : St) (n : Node) (moved : Bool) (d : Key) (o : Val) : Prop :=
 theorem DepOK.frame {p : Program} {s s' : St} {n : Node} {m : Bool} {d : Key} {o : Val}
     (h : DepOK s n m d o) (f : Frame p s s') : DepOK s' n m d o := by
   obtain ⟨nd, hnd, hv, hs, hacc⟩ := h
-  obtain ⟨nd', hnd', a, _, c, _, e⟩ := f.keep d nd hs hnd
+  obtain ⟨nd', hnd', a, _, c, _, e, _⟩ := f.keep d nd hs hnd
   exact ⟨nd', hnd', by rw [a, hv], f.solid hs, fun hm hk => by rw [c]; exact hacc hm (by rw [← e]; exact hk)⟩
 
 theorem DepOK.weaken {s : St} {n : Node} {m m' : Bool} {d : Key} {o : Val}
@@ -100,7 +100,7 @@ theorem repairDeps_spec {p : Program} {q : Q} {k : Key} (hq : QSpec p q k) {n : 
         rw [hr] at hqd
         obtain ⟨i1, f1, t1, c1, nd, hnd, hvd, hver⟩ := hqd
         simp only at i1 f1 t1 c1 hnd hvd hver
-        have k1 : s1.nodes k = some n := by rw [t1 k (by komega)]; exact hk
+        have k1 : s1.nodes k = some n := by rw [t1.1 k (by komega)]; exact hk
         simp only
         split
         · rename_i hne
@@ -140,7 +140,7 @@ theorem repairDeps_spec {p : Program} {q : Q} {k : Key} (hq : QSpec p q k) {n : 
                 rcases h with h | h
                 · exact Or.inl h
                 · obtain ⟨a, b'⟩ := tfcMoved_true hnd h
-                  obtain ⟨nd3, hnd3, _, _, c3, _, e3⟩ := f3.keep d nd hsol hnd
+                  obtain ⟨nd3, hnd3, _, _, c3, _, e3, _⟩ := f3.keep d nd hsol hnd
                   exact Or.inr ⟨d, v, nd3, List.mem_cons_self .., hnd3, by rw [e3]; exact a, by rw [c3]; exact b'⟩
               · exact Or.inr ⟨d', o', nd', List.mem_cons_of_mem _ hm', r⟩
           · intro hb
